@@ -154,9 +154,9 @@ func Copy(dst, src protoreflect.Message) {
 				if fd.MapValue().Message() != nil {
 					e := dm.NewValue()
 					Copy(e.Message(), mv.Message())
-					dm.Set(k, e)
+					dm.Set(cloneKey(k), e)
 				} else {
-					dm.Set(k, cloneScalar(mv))
+					dm.Set(cloneKey(k), cloneScalar(mv))
 				}
 				return true
 			})
@@ -173,10 +173,22 @@ func Copy(dst, src protoreflect.Message) {
 }
 
 func cloneScalar(v protoreflect.Value) protoreflect.Value {
-	if b, ok := v.Interface().([]byte); ok {
-		return protoreflect.ValueOfBytes(append([]byte{}, b...))
+	switch x := v.Interface().(type) {
+	case []byte:
+		return protoreflect.ValueOfBytes(append([]byte{}, x...))
+	case string:
+		// a string header copied by value still points at the same bytes: a decoder that built the string over the caller's
+		// buffer would change the "copy" together with the original
+		return protoreflect.ValueOfString(strings.Clone(x))
 	}
 	return v
+}
+
+func cloneKey(k protoreflect.MapKey) protoreflect.MapKey {
+	if s, ok := k.Interface().(string); ok {
+		return protoreflect.ValueOfString(strings.Clone(s)).MapKey()
+	}
+	return k
 }
 
 // ToDyn converts any message into a dynamicpb message over desc.
